@@ -78,7 +78,8 @@ def c17(ctx, rep):
     if len(a) != len(b):
         rep.violation("decode sweep length mismatch", {"go": len(a), "model": len(b)}, found=False)
     # (b) run-time correspondence with invalid bytes at every position class
-    run_corr(ctx, rep, [("utf8", 300, 6000)], fields=["out", "val", "errs", "trace"], oracle=c17_oracle, emitted=(24, 300))
+    run_corr(ctx, rep, [("utf8", 300, 6000)], fields=["out", "val", "errs", "trace"], ref_fields=["out", "val", "errs"],
+             known_quirks=known_quirks_for("C17"), foreign_quirks=foreign_quirks_for("C17"), oracle=c17_oracle, emitted=(24, 300))
     # every option hands back the option that restores the previous setting: AllowInvalidUTF8 (and the others) applied
     # and undone before the parse must leave the result as it is
     from .props import same_on
@@ -124,6 +125,11 @@ def replay_runtime_known(ctx, k):
 def known_quirks_for(prop_id):
     return {k["quirk"]: k["id"] for k in C.known_findings().get("findings", [])
             if "quirk" in k and k["property"] == prop_id and k.get("status") == "known"}
+
+def foreign_quirks_for(prop_id):
+    """quirks recorded as known findings of OTHER properties: a disagreement they explain is that property's to report"""
+    return {k["quirk"]: k["id"] for k in C.known_findings().get("findings", [])
+            if "quirk" in k and k["property"] != prop_id and k.get("status") == "known"}
 
 ALL_FIELDS = ["out", "val", "errs", "cnt", "maxfail", "gs", "trace"]
 
